@@ -354,6 +354,8 @@ def _boundary_instants(name, rng):
 
 def _gen_run(rng):
     f = rng.choice(FILES)
+    if rng.random() < 0.3:
+        return _gen_run_aligned(rng, f)
     p = rng.choice(PERIODS)
     T = rng.randint(4, 36)
     j = rng.randint(1, T - 1)           # the boundary falls on iteration j of the run
@@ -361,6 +363,28 @@ def _gen_run(rng):
     return {"t": "run", "file": f, "sim_start": boundary - j * p * 60, "period": p, "T": T,
             "n": rng.choice([1, 2, 3, T, rng.randint(1, T + 5)]), "volt": rng.choice([208, 240, 277]),
             "rates": [rng.choice([0, 6, 8, 16, 32, round(rng.uniform(0, 32), 2)]) for _ in range(rng.randint(1, 7))]}
+
+
+def _gen_run_aligned(rng, f):
+    """a run whose clock is ALIGNED to a coarser grid than its period (start on the full hour / half hour / quarter, period a
+    divisor of that grid) and which is loaded in every period around a price change that falls INSIDE a grid cell (a half-hour
+    or any off-grid breakpoint): what an implementation that looks prices up once per hour / per grid cell and repeats them
+    gets wrong, while every run whose breakpoints are on the grid is still costed correctly"""
+    inner = sorted({b for b in file_breakpoint_secs(f) if 0 < b < 86399})
+    grid = rng.choice([3600, 3600, 3600, 1800, 7200])
+    off = [b for b in inner if b % grid] or inner
+    d = datetime(rng.choice(YEARS14), rng.randint(1, 12), rng.randint(1, 28))
+    while d.weekday() >= 5:
+        d += timedelta(days=1)
+    boundary = ep(d) + rng.choice(off)
+    p = rng.choice([q for q in (1, 2, 3, 5, 6, 10, 12, 15, 20, 30) if (grid // 60) % q == 0 and q * 60 < grid] or [5])
+    start = boundary - boundary % grid - rng.choice([0, 0, 1, 2, 3]) * grid
+    T = (boundary - start) // (p * 60) + rng.randint(2, 3 * grid // (p * 60) + 2)
+    T = int(min(T, 400))
+    return {"t": "run", "file": f, "sim_start": start, "period": p, "T": T,
+            "n": rng.choice([T, T, T + 5, rng.randint(1, T)]), "volt": rng.choice([208, 240, 277]),
+            "rates": [rng.choice([6, 8, 16, 32, round(rng.uniform(1, 32), 2)]) for _ in range(rng.randint(1, 7))],
+            "aligned": grid}
 
 
 # ---- long-span stream: vectors / horizons / runs that are longer than the natural cycles of a schedule
@@ -1162,6 +1186,8 @@ def features(case, obs):
                                       n, case["period"]))
         if obs["agg"] and obs["agg"][0] == 0 and any(obs["agg"]):
             out.append("cost_idle_head")
+        if case.get("aligned"):
+            out.append(f"run_aligned_to_grid:{case['aligned']}")
         out.append("cost_result:" + ("error" if isinstance(obs["energy_cost"], str) else "ok"))
     return out
 
